@@ -1,0 +1,17 @@
+//go:build verif
+
+package core
+
+// Contracts for the verif build tag (comment-only; see /verif/DESIGN.md).
+
+//@ prop C04
+//@ import vm github.com/nspcc-dev/neo-go/pkg/vm
+
+// A transaction's DAO layer is merged into the block's layer only when its execution did not
+// fault: every call of Persist on the per-transaction interop context's DAO is reached only
+// with the VM not in the failed state.
+//@ func (*Blockchain).storeBlock
+//@ may-panic
+//@ opt frame off
+//@ requires bc != nil && block != nil
+//@ call dao::(*Simple).Persist requires[halted] arg0 == systemInterop.DAO ==> !v.failed
